@@ -4227,12 +4227,16 @@ class Client:
                         self._in_packet['packet'][3:])
         self._easy_log(MQTT_LOG_DEBUG, "Received PUBREL (Mid: %d)", mid)
 
+        message = None
         with self._in_message_mutex:
             if mid in self._in_messages:
                 # Only pass the message on if we have removed it from the queue - this
                 # prevents multiple callbacks for the same message.
                 message = self._in_messages.pop(mid)
-                self._handle_on_message(message)
+        if message is not None:
+            # Deliver without holding _in_message_mutex: the callback may call
+            # reconnect(), which takes that (non-reentrant) lock.
+            self._handle_on_message(message)
 
         # FIXME: this should only be done if the message is known
         # If unknown it's a protocol error and we should close the connection.
